@@ -472,3 +472,35 @@ def soa_observer_rule(ctx, res, rule: str) -> None:
                 "perform_soa_on_changed_scopes calls the analysis outside any suppress/try that absorbs ModuleSyntaxError: the callback runs inside "
                 "every file write after the bytes are on disk; a module it evaluates lazily (an unparsable module on the python path) makes the "
                 "write 'fail' with the file already rewritten, not rolled back and not in the undo list", function=f.qualname)
+
+
+def keyword_word_boundary_rule(ctx, res, rule: str) -> None:
+    """Shared by C14/C20: where the word finder recognises a keyword by comparing a SLICE of the text with its spelling
+    (`code[i - 3 : i + 1] == "from"`), the same decision tests the character before the slice (an identifier character
+    there means the slice is the tail of a longer name such as `copied_from`)."""
+    idx = ctx.idx
+    unit = idx.need_unit("rope.base.worder")
+    import keyword as _kw
+
+    n = 0
+    for f in sorted((f for f in idx.functions.values() if f.unit is unit), key=lambda f: f.qualname):
+        for x in walk_local(f.node):
+            if not (isinstance(x, ast.Compare) and len(x.ops) == 1 and isinstance(x.ops[0], (ast.Eq, ast.NotEq))):
+                continue
+            sides = [x.left, x.comparators[0]]
+            sl = next((e for e in sides if isinstance(e, ast.Subscript) and isinstance(e.slice, ast.Slice)), None)
+            kw = next((e for e in sides if isinstance(e, ast.Constant) and isinstance(e.value, str) and _kw.iskeyword(e.value)), None)
+            if sl is None or kw is None:
+                continue
+            n += 1
+            ok = False
+            for b in walk_local(f.node):
+                if isinstance(b, ast.BoolOp) and any(v is x for v in b.values):
+                    ok = any(isinstance(c, ast.Call) and call_name(c) in ("_is_id_char", "isalnum", "isidentifier", "_find_word_start")
+                             for v in b.values if v is not x for c in ast.walk(v))
+            res.add(rule, f"{f.qualname.split('.', 2)[-1]}|keyword-slice:{kw.value}", ok, f"{f.unit.rel}:{x.lineno}",
+                    f"the text slice compared with '{kw.value}' is tested for a word boundary in front of it" if ok else
+                    f"{f.name} takes the characters `{ast.unparse(sl)}` for the keyword '{kw.value}' without testing the character before them: a name "
+                    f"that merely ends in '{kw.value}' (copied_{kw.value}.path) is treated as the keyword, the attribute is cut off from its object and "
+                    "cannot be evaluated (go-to-definition raises, completion offers nothing)", function=f.qualname)
+    res.floor(rule, "keyword recognised by a text slice in the word finder", n, 1)
